@@ -14,9 +14,35 @@ _FINAL = None
 _WANT_STEPS = False
 
 
-def _init(oracle_path, bind_name):
-    global _ORACLE, _FINAL, _WANT_STEPS
-    H.bind(REC.BN128, bind_name)
+_REAL = None
+
+REAL_BACKENDS = {"pysnark.snarkjsbackend": REC.BN128, "pysnark.zkinterface.backend": REC.BN128,
+                 "pysnark.zkinterface.backendbellman": REC.BLS12_381, "pysnark.zkinterface.backendbulletproofs": REC.CURVE25519}
+
+
+def bind_real_worker(real):
+    """Worker / replay process: pre-import a REAL list-based backend module (FlatBuffers builder shim on
+    the path for the zkinterface family) so that pysnark.runtime selects it; the explorers then inspect
+    the module's own variable and constraint lists."""
+    import sys
+    if "pysnark.runtime" in sys.modules:
+        raise RuntimeError("real-backend worker: pysnark.runtime is already imported in this process")
+    if "zkinterface" in real:
+        try:
+            import flatbuffers  # noqa: F401
+        except ImportError:
+            import os
+            sys.path.insert(0, os.path.join(common.VERIF, "pv", "shims", "fb"))
+    H.bind_real(real)
+
+
+def _init(oracle_path, bind_name, real=None):
+    global _ORACLE, _FINAL, _WANT_STEPS, _REAL
+    _REAL = real
+    if real:
+        bind_real_worker(real)
+    else:
+        H.bind(REC.BN128, bind_name)
     mod, fn = oracle_path.rsplit(".", 1)
     m = importlib.import_module(mod)
     _ORACLE = getattr(m, fn)
@@ -50,9 +76,12 @@ def _task(t):
             for sig, what in _ORACLE(prog, vec, mode, n, p, o, extra) or ():
                 key = common.sig_hash(sig)
                 if key not in viols:
+                    if _REAL:
+                        sig = dict(sig, backend=_REAL.split("pysnark.")[1])
+                        what = "[real backend %s] %s" % (_REAL, what)
                     viols[key] = {"sig": sig, "what": what, "count": 0,
                                   "case": {"prog": prog, "vals": list(vec), "mode": mode, "n": n,
-                                           "p": p}}
+                                           "p": p, "real": _REAL}}
                 viols[key]["count"] += 1
     if _FINAL is not None:
         for sig, what, case in _FINAL(prog, n, p, extra) or ():
@@ -66,8 +95,9 @@ def _task(t):
 
 
 def sweep(ctx, progs, configs, oracle_path, modes=E.MODES, want_trace=False,
-          bind_name="pysnark.nobackend", post=None):
-    """configs: list of (n, p, values)."""
+          bind_name="pysnark.nobackend", post=None, real=None):
+    """configs: list of (n, p, values).  real: module name of a real backend to run against instead of
+    the recorder (p of every config must be that backend's field)."""
     tasks = []
     for n, p, vals in configs:
         for prog in progs:
@@ -75,7 +105,16 @@ def sweep(ctx, progs, configs, oracle_path, modes=E.MODES, want_trace=False,
     rnd = random.Random(ctx.seed)
     rnd.shuffle(tasks)          # the seed only permutes enumeration order
     # big programs first would be better for balance; chunk by 1 and let the pool balance
-    results = common.pool_map(_task, tasks, init=_init, initargs=(oracle_path, bind_name))
+    if real and (len(tasks) < 2 or common.NCPU <= 1 or __import__("os").environ.get("VERIF_SERIAL")):
+        tasks = tasks + tasks[:1] if len(tasks) < 2 else tasks
+        results = common.pool_map(_task, tasks, init=_init, initargs=(oracle_path, bind_name, real), procs=2, force_fork=True)
+    else:
+        results = common.pool_map(_task, tasks, init=_init, initargs=(oracle_path, bind_name, real))
+    if real:
+        ctx.cov["real_backend_executions"] = ctx.cov.get("real_backend_executions", 0) + sum(r["st"]["executions"] for r in results)
+        ctx.cov.setdefault("real_backends", [])
+        if real not in ctx.cov["real_backends"]:
+            ctx.cov["real_backends"].append(real)
     states = set()
     per_op_outcomes = {}
     extras = []
@@ -113,7 +152,7 @@ def dedupe_violations(ctx):
     ctx.violations = list(seen.values())
 
 
-def standard_configs(ctx, fields=None, small=(2, 3), big=(4, 8, 16)):
+def standard_configs(ctx, fields=None, small=(1, 2, 3), big=(4, 8, 16)):
     """(n, p, values) list per tier.  quick: D(2), D(3) complete + lattice(8) on bn128;
     thorough: all three real fields, lattices 4, 8, 16."""
     cfg = []
@@ -126,7 +165,7 @@ def standard_configs(ctx, fields=None, small=(2, 3), big=(4, 8, 16)):
         fl = fields
     for i, p in enumerate(fl):
         for n in small:
-            if ctx.thorough or i == 0 or n == small[0]:
+            if ctx.thorough or i == 0 or n == 2:
                 cfg.append((n, p, E.D(n)))
         for n in big:
             if ctx.thorough or (i == 0 and n == 8):
